@@ -267,6 +267,8 @@ def make_corpus(ctx: Ctx) -> dict:
     for m, text in files.items():
         with open(os.path.join(root, m + ".py"), "w") as f:
             f.write(text)
+        if m != "c11_all":
+            SOURCES[m] = text
     return {"root": root, "files": files, "stdlib": mods, "generated": gens}
 
 
@@ -319,6 +321,14 @@ def td_order_only(a, b) -> bool:
     return norm(a) == norm(b)
 
 
+SOURCES: dict[str, str] = {}      # generated module name → source text (embedded in replays)
+
+
+def src_of(mod: str) -> dict | None:
+    top = mod.split(".")[0]
+    return {top: SOURCES[top]} if top in SOURCES else None
+
+
 def compare_tables(ctx: Ctx, fmt: str, what: str, left: dict, right: dict, limit: list[int],
                    skip: set | None = None) -> set:
     """left/right: {module: dump}; reports per (module, symbol, attribute path).  Returns the (module, symbol)
@@ -360,15 +370,42 @@ def compare_tables(ctx: Ctx, fmt: str, what: str, left: dict, right: dict, limit
                 ctx.report({"class": "attribute-differs", "format": fmt, "attribute": path.split("/")[-1]},
                            f"{what}: {mod}.{sym} attribute {path}: {l[:90]} → {r[:90]}",
                            {"module": mod, "symbol": sym, "attribute": path, "before": l, "after": r, "format": fmt,
-                            "all_differences": dd[:8]})
+                            "all_differences": dd[:8], "sources": src_of(mod)})
     if td_lost:
         ctx.coverage.setdefault("typeddict_order_lost", {})[fmt] = len(td_lost)
         f0 = td_lost[0]
         ctx.report({"class": "typeddict-key-order", "format": fmt},
                    f"{what}: TypedDict keys come back in sorted order, declaration order lost, for {len(td_lost)} symbols, "
                    f"e.g. {f0['module']}.{f0['symbol']} ({f0['attribute']}: {f0['before'][:40]} → {f0['after'][:40]})",
-                   {"format": fmt, "symbols": td_lost[:40]})
+                   {"format": fmt, "symbols": td_lost[:40], "sources": src_of(f0["module"])})
     return differing
+
+
+def flag_coverage(ctx: Ctx, dumps: dict) -> None:
+    """which serialised flags / node kinds / type kinds occur (set to True) in the corpus"""
+    seen: dict[str, int] = {}
+    kinds: dict[str, int] = {}
+
+    def walk(x):
+        if isinstance(x, dict):
+            k = x.get("k")
+            if isinstance(k, str):
+                kinds[k] = kinds.get(k, 0) + 1
+                fl = x.get("flags")
+                if isinstance(fl, dict):
+                    for f, v in fl.items():
+                        key = f"{k}.{f}"
+                        seen[key] = seen.get(key, 0) + (1 if v else 0)
+            for v in x.values():
+                walk(v)
+        elif isinstance(x, list):
+            for v in x:
+                walk(v)
+    for d in dumps.values():
+        walk(d)
+    ctx.coverage["kinds_in_corpus"] = dict(sorted(kinds.items()))
+    ctx.coverage["flags_never_true_in_corpus"] = sorted(k for k, v in seen.items() if v == 0)
+    ctx.coverage["flags_true_in_corpus"] = len([k for k, v in seen.items() if v > 0])
 
 
 def structural_roundtrip(ctx: Ctx, corp: dict) -> dict:
@@ -390,6 +427,8 @@ def structural_roundtrip(ctx: Ctx, corp: dict) -> dict:
         fresh = {mid: dump.module(t) for mid, t in res1.files.items()}
         fresh_by_fmt[fmt] = fresh
         nmods = len(fresh)
+        if fmt == "binary":
+            flag_coverage(ctx, fresh)
         del res1
         with open(os.path.join(corp["root"], "c11_td_main.py"), "a") as f:
             f.write("# touched\n")
@@ -566,6 +605,7 @@ def object_level(ctx: Ctx) -> None:
         f = N.MypyFile([], [])
         f._fullname = "m"
         f.path = "m.py"
+        f.names = N.SymbolTable()
         return f
     bin_only_skip = {"Var": {"is_self", "is_cls"}}
     table: list[tuple[str, object, list[str]]] = [
@@ -666,6 +706,34 @@ def run_translators(ctx: Ctx) -> dict:
     return res
 
 
+def explain_broken(res: dict) -> list[str]:
+    """which generated obligation is false, in terms of (class, slot, field) — diagnostics for the replay"""
+    from translate import schemas
+    out = [f"schemas_sub: {k}: {v}" for k, v in schemas.diagnose(res).items()]
+    for k, v in res["classes"].items():
+        wf, rf = schemas.flag_names(v["write"]), schemas.flag_names(v["read"])
+        if wf != rf:
+            for a, b in zip(wf, rf):
+                if a != b:
+                    out.append(f"flag_names_agree: {k}: write_flags packs {a}, read_flags unpacks into {b}")
+            if len(wf) != len(rf):
+                out.append(f"flag_names_agree: {k}: {len(wf)} write_flags calls vs {len(rf)} read_flags calls")
+    for k, j in res["json"].items():
+        if set(j["write_keys"]) != set(j["read_keys"]):
+            out.append(f"json_keys_agree: {k}: serialize writes {sorted(set(j['write_keys']) - set(j['read_keys']))} "
+                       f"that deserialize does not read; deserialize reads {sorted(set(j['read_keys']) - set(j['write_keys']))} "
+                       f"that serialize does not write")
+        if k in res["classes"] and j.get("bin_self_attrs") is not None:
+            a, b = set(j["attrs"]) | set(j["flags"]), set(j["bin_self_attrs"])
+            d1 = sorted(x for x in a - b if (k, x) not in (("Var", "is_self"), ("Var", "is_cls")))
+            d2 = sorted(b - a)
+            if d1 or d2:
+                out.append(f"formats_same_fields: {k}: JSON only {d1}, binary only {d2}")
+    if res["uncovered"]:
+        out.append(f"extraction_total: not normalised: {res['uncovered']}")
+    return out
+
+
 def main(ctx: Ctx) -> None:
     ctx.level = "proof"
     extra = os.environ.get("VERIF_C11_FINDINGS")       # builder's self-test only: entries proposed for known_findings.json
@@ -691,11 +759,92 @@ def main(ctx: Ctx) -> None:
                           f"{os.path.basename(f)} (model says: {o}); the structural round trip of the same modules found nothing",
                           {"broken": "correspondence Driver/C11 `RT` (Gen/Schemas) vs real cache file", "file": os.path.basename(f),
                            "class": cls, "model": o}, found_input=False)
-    if not proved and not ctx.violations:
-        ctx.violation("Lean development for C11 no longer builds", {"broken": ctx.broken_ties}, found_input=False)
+    if not proved:
+        why = explain_broken(res)
+        ctx.coverage["broken_obligations"] = why
+        print("  broken obligations: " + (" | ".join(why)[:1500] if why else "(none of the generated tables; see build log)"), flush=True)
+        if not ctx.violations:
+            ctx.violation("a proof obligation of C11 no longer holds (" + ("; ".join(why)[:600] if why else "Lean build failed") +
+                          "); the round-trip searches found no concrete failing input",
+                          {"broken": ctx.broken_ties, "obligations": why}, found_input=False)
+
+
+def replay_symbol(ctx: Ctx, det: dict) -> int:
+    """rebuild cold + warm for the one module (its source is in the replay when it was generated) and print the
+    symbol's dump before / after the round trip in the recorded format"""
+    from harness.c11 import corpus, dump
+    fmt = det.get("format", "binary")
+    fmts = ["binary", "json"] if fmt == "binary-vs-json" else [fmt]
+    mod = det["module"]
+    root = os.path.join(ctx.tmp, "src")
+    os.makedirs(root, exist_ok=True)
+    files = {"c11_td": corpus.TD_MODULE, "c11_td_main": corpus.TD_MAIN, "c11_all": f"import {mod}\n"}
+    for m, text in (det.get("sources") or {}).items():
+        files[m] = text
+    for m, text in files.items():
+        with open(os.path.join(root, m + ".py"), "w") as f:
+            f.write(text)
+    corp = {"root": root, "files": files}
+    rc = 0
+    for fm in fmts:
+        cache = os.path.join(ctx.tmp, "cache_" + fm)
+        res1, msgs1, _ = run_build(ctx, corp, cache, fm == "binary")
+        a = dump.module(res1.files[mod])["names"].get(det.get("symbol", ""))
+        with open(os.path.join(root, "c11_td_main.py"), "a") as f:
+            f.write("# touched\n")
+        res2, msgs2, _ = run_build(ctx, corp, cache, fm == "binary")
+        from mypy.build import process_fresh_modules
+        missing = [mid for mid, st in res2.graph.items() if st.tree is None and st.meta is not None]
+        process_fresh_modules(res2.graph, missing, res2.manager)
+        b = dump.module(res2.graph[mod].tree)["names"].get(det.get("symbol", ""))
+        dd = dump.diff(a, b)
+        print(f"[{fm}] {mod}.{det.get('symbol')}: {len(dd)} differing attribute(s) after write→read→fixup")
+        for pth, l, r in dd[:10]:
+            print(f"   {pth}: {l}  →  {r}")
+        c1, c2 = canon_msgs(msgs1, root), canon_msgs(msgs2, root)
+        if c1 != c2:
+            print("   cold run printed:", [m for m in c1 if m not in c2][:4])
+            print("   warm run printed:", [m for m in c2 if m not in c1][:4])
+        if dd or c1 != c2:
+            rc = 1
+    return rc
 
 
 def replay(ctx: Ctx, path: str) -> int:
     body = json.load(open(path))
+    rep = body.get("replay", {})
+    obs = rep.get("observed", {})
+    det = rep.get("detail", rep)
+    print("what:", body.get("what"))
+    if not body.get("failing_input_found", True):
+        print("no failing input was found; broken tie:", json.dumps(det, indent=1)[:3000])
+        return 1
+    use_repo_librt(ctx)
+    cls = obs.get("class")
+    if cls == "primitive-roundtrip":
+        import librt.internal as li
+        v = det.get("value")
+        if isinstance(v, int):
+            b = real_write(li.write_int, v)
+            print("write_int", v, "→", b.hex() if b else None, "→ read_int →", real_read(li.read_int, b or b""))
+        else:
+            print(json.dumps(det, indent=1))
+        return 1
+    if cls in ("flag-lost", "value-lost"):
+        class _C(Ctx):
+            pass
+        sub = Ctx(ctx.prop, ctx.tier, body.get("seed", 0))
+        sub.findings = []
+        object_level(sub)
+        for w, _ in sub.violations:
+            if det.get("node", "") in w:
+                print("reproduced:", w)
+        return 1 if sub.violations else 0
+    if cls in ("attribute-differs", "symbol-missing", "typeddict-key-order", "warm-output-differs") :
+        if "module" not in det and det.get("symbols"):
+            det = dict(det["symbols"][0], format=det.get("format", "binary"), sources=det.get("sources"))
+        if "module" not in det:
+            det = {"module": "c11_td", "symbol": "TD", "format": det.get("format", "binary")}
+        return replay_symbol(ctx, det)
     print(json.dumps(body, indent=1)[:4000])
-    return 0
+    return 1
